@@ -75,6 +75,17 @@ def fn(kind, cse):
             ang = COMPOUND[form]
             klass = RotationYMatrix if cls == "roty" else RotationZMatrix
             _cache[key] = sp.lambdify([a, b, n], klass(ang, n_events=n).doit(), "numpy", cse=cse)
+        elif isinstance(kind, tuple) and kind[0] in ("mixed", "apply"):  # products of DIFFERENT matrix classes, in order
+            _, ops = kind
+            syms = sp.symbols("t0:%d" % len(ops))
+            mats = []
+            for o, t in zip(ops, syms):
+                mats.append({"roty": RotationYMatrix, "rotz": RotationZMatrix, "boostz": BoostZMatrix}[o](t, n_events=n))
+            if kind[0] == "mixed":
+                expr = MatrixMultiplication(*mats)
+            else:
+                expr = ArrayMultiplication(*mats, p)
+            _cache[key] = sp.lambdify([*syms, n, p], expr.doit(), "numpy", cse=cse)
         elif kind == "boost_explicit":  # the explicit symbolic matrix, entry by entry
             _cache[key] = sp.lambdify([p], list(BoostMatrix(p).as_explicit().doit()), "numpy", cse=cse)
         elif kind == "boostz_explicit":
@@ -230,6 +241,29 @@ def run_case(c):
             tol = 1e-9 * max(1.0, float(np.abs(ref).max()))
         if np.abs(M - ref).max() > tol:
             fails.append((f"matrix_product_{cls}_{pattern}", f"MatrixMultiplication over pattern {pattern} differs from the ordered matrix product by {np.abs(M - ref).max():.3g}"))
+    elif kind in ("mixed", "apply"):
+        ops, vals = tuple(c["ops"]), c["vals"]
+        f = fn((kind, ops), cse)
+        P = np.array(c["p"], dtype=float)
+        out = f(*[np.full(batch, v) for v in vals], batch, np.tile(P, (batch, 1)))
+        ref = np.eye(4)
+        for o, v in zip(ops, vals):
+            if o == "boostz":
+                g = 1 / np.sqrt(1 - v * v)
+                B = np.eye(4)
+                B[0, 0] = B[3, 3] = g
+                B[0, 3] = B[3, 0] = -g * v
+                ref = ref @ B
+            else:
+                ref = ref @ ref_rot(o, v)
+        want = ref if kind == "mixed" else ref @ P
+        if out.shape != (batch, *want.shape):
+            return [(f"{kind}_shape", f"shape {out.shape}")]
+        tol = 1e-9 * max(1.0, float(np.abs(want).max()))
+        if np.abs(out[0] - want).max() > tol:
+            what = "MatrixMultiplication" if kind == "mixed" else "ArrayMultiplication(..., p)"
+            fails.append((f"{kind}_product_order", f"{what} over {'.'.join(ops)} at {vals}: differs from the ordered product by "
+                          f"{np.abs(out[0] - want).max():.3g}"))
     elif kind == "compound":
         cls, form, a1, a2 = c["cls"], c["form"], c["a1"], c["a2"]
         R = fn(("compound", cls, form), cse)(np.full(batch, a1), np.full(batch, a2), batch)
@@ -297,6 +331,14 @@ def gen_cases(seed, n_cases):
             else:
                 v1, v2 = rng.uniform(-7, 7), rng.uniform(-7, 7)
             cases.append({"kind": "product", "cls": cls, "pattern": pattern, "cse": cse, "batch": batch, "a1": v1, "a2": v2})
+        elif k == 4 and rng.random() < 0.5:
+            applied = rng.random() < 0.5
+            nops = rng.choice([1, 2, 2, 3, 4]) if applied else rng.choice([2, 2, 3, 4])
+            ops = [rng.choice(["roty", "rotz", "boostz"]) for _ in range(nops)]
+            vals = [rng.uniform(-0.9, 0.9) if o == "boostz" else rng.uniform(-3, 3) for o in ops]
+            pv = [rng.uniform(-2, 2) for _ in range(3)]
+            cases.append({"kind": "apply" if applied else "mixed", "ops": ops, "vals": vals, "cse": cse, "batch": batch,
+                          "p": [float(np.sqrt(1 + sum(x * x for x in pv))), *pv]})
         elif k == 4 and rng.random() < 0.5:
             cases.append({"kind": "compound", "cls": rng.choice(["roty", "rotz"]), "form": rng.choice(sorted(COMPOUND)),
                           "cse": cse, "batch": batch, "a1": rng.uniform(-7, 7), "a2": rng.uniform(-7, 7)})
